@@ -1006,6 +1006,35 @@ FIRST_ORDER_MUTANTS = [
          edits=[(MAIN, "n=1, cutoff=0)[0]", "n=1, cutoff=0)[1]")]),
     dict(id="fo-suggestion-benign-n", props=["C19"], benign=True,
          edits=[(MAIN, "n=1, cutoff=0)[0]", "n=3, cutoff=0.0)[0]")]),
+    dict(id="fo-pretty-mode-negated", props=["C14"], rule="Q5", names="list folding mode",
+         edits=[(PRETTY, "    if is_tpm2b:\n        # consume all list elements\n", "    if not is_tpm2b:\n        # consume all list elements\n")]),
+    dict(id="fo-pretty-byte-test-negated", props=["C14"], rule="Q5", names="list folding",
+         edits=[(PRETTY, "parent_event.type.__args__[0] is BYTE\n", "parent_event.type.__args__[0] is not BYTE\n")]),
+    dict(id="fo-pretty-membership-or", props=["C14"], rule="Q5", names="list membership",
+         edits=[(PRETTY, "            parent.path[:-1] == event.path[:-1]\n            and parent.path[-1].name", "            parent.path[:-1] == event.path[:-1]\n            or parent.path[-1].name")]),
+    dict(id="fo-pretty-membership-prefix", props=["C14"], rule="Q5", names="list membership",
+         edits=[(PRETTY, "            parent.path[:-1] == event.path[:-1]\n", "            parent.path[:-2] == event.path[:-2]\n")]),
+    dict(id="fo-pretty-flag-never-cleared", props=["C14"], rule="Q5", names="empty-list flag",
+         edits=[(PRETTY, "            yield from pretty(child_event)\n            is_empty = False\n", "            yield from pretty(child_event)\n")]),
+    dict(id="fo-pretty-loop-never-runs", props=["C14"], rule="Q5", names="list folding loop",
+         edits=[(PRETTY, "        # consume all list elements\n        while True:\n            # get next (potential) child_event\n            try:\n                child_event = next(events_generator)\n            except StopIteration:\n                if is_empty:",
+                 "        # consume all list elements\n        while False:\n            # get next (potential) child_event\n            try:\n                child_event = next(events_generator)\n            except StopIteration:\n                if is_empty:")]),
+    dict(id="fo-pretty-buffer-unbound", props=["C14"], rule="Q6", names="unbound local",
+         edits=[(PRETTY, '        child_buffer = b""\n        while True:', "        while True:")]),
+    dict(id="fo-events-name-unbound", props=["C14"], rule="Q6", names="undefined name",
+         edits=[(EVENTS, '        name = f"{Fore.LIGHTGREEN_EX}{event.path}{Style.RESET_ALL}"\n', "")]),
+    dict(id="fo-find-type-buffer-undefined", props=["C19"], rule="L6", names="undefined name",
+         edits=[(MAIN, "    buffer = bytes(bytes_from_files(args.file))\n\n    canonical_objs", "\n    canonical_objs")]),
+    dict(id="fo-canonical-stays-lazy", props=["C19"], rule="L7", names="eager",
+         edits=[(S + "common/canonical.py", "        if not lazy:\n            self.events  # resolve\n", "        if lazy:\n            self.events  # resolve\n")]),
+    dict(id="fo-canonical-drops-strictness", props=["C19"], rule="L7", names="decode arguments",
+         edits=[(S + "common/canonical.py", "                    command_code=command_code,\n                    abort_on_error=abort_on_error,\n", "                    command_code=command_code,\n")]),
+    dict(id="fo-type-listing-swapped", props=["C19"], rule="L7", names="type listing",
+         edits=[(MAIN, "        if isinstance(canonical_obj.object, Response):\n", "        if not isinstance(canonical_obj.object, Response):\n")]),
+    dict(id="fo-bitfield-no-attributes", props=["C17"], rule="M2", names="registration",
+         edits=[(VALUES, '        if not hasattr(cls, "attributes"):\n            setattr(cls, "attributes", attributes)\n', '        if hasattr(cls, "attributes"):\n            setattr(cls, "attributes", attributes)\n')]),
+    dict(id="fo-selector-type-unbound", props=["C06"], rule="X5", names="undefined name",
+         edits=[(MARSHAL, "            selector_type = next(\n                f.type for f in fields(tpm_type) if f.name == selector_name\n            )\n", "")]),
 ]
 MUTANTS += FIRST_ORDER_MUTANTS
 
